@@ -2474,3 +2474,120 @@ Proof.
       unfold call_builtin. apply render_fail_bind. rewrite Hrun.
       destruct ce; try contradiction; exact R.
 Qed.
+
+(* ================================================================= predicates *)
+Lemma type_pred_spec p s v :
+  val_ok s v -> called_with s [v] ->
+  exists c s', heap_deref (hp s) v = Ok c /\ type_pred p s = ROk (VBool (p c)) s' /\
+               hp s' = hp s /\ st s' = st s /\
+               absv s v = match v with VPtr q => cell_val q c | _ => AImm c end /\ data_cell c.
+Proof.
+  intros Hv H. unfold called_with in H. cbn [len length rev app N.of_nat Pos.of_succ_nat] in H.
+  pose proof (stack_top_tail _ _ _ _ H) as H1.
+  destruct (val_deref s v Hv) as (c & Hc & Ha & Hd).
+  exists c, (with_sp (with_sp s (sp s - 1)) (sp (with_sp s (sp s - 1)) - 1)).
+  refine (conj Hc (conj _ (conj eq_refl (conj eq_refl (conj Ha Hd))))).
+  unfold type_pred. pop_argc_tac H s 1 1 (Some 1).
+  unfold bindM at 1. rewrite (pop_value_top (with_sp s (sp s - 1)) v [] H1). unfold lift.
+  change (hp (with_sp s (sp s - 1))) with (hp s). rewrite Hc. reflexivity.
+Qed.
+
+(* the answer of a type predicate is a function of the abstract value *)
+Definition akind_pair (x : aval) := match x with ALoc (LPair _) => true | _ => false end.
+Definition akind_null (x : aval) := match x with AImm VNil => true | _ => false end.
+Definition akind_vector (x : aval) := match x with ALoc (LVec _) => true | _ => false end.
+Definition akind_string (x : aval) := match x with ALoc (LStr _) => true | _ => false end.
+Definition akind_symbol (x : aval) := match x with AImm (VSym _) => true | _ => false end.
+Definition akind_boolean (x : aval) := match x with AImm (VBool _) => true | _ => false end.
+Definition akind_char (x : aval) := match x with AImm (VChar _) => true | _ => false end.
+Definition akind_number (x : aval) := match x with AImm (VNum _) => true | _ => false end.
+
+Ltac pred_tac p :=
+  intros s v Hv H;
+  destruct (type_pred_spec p s v Hv H) as (c & s' & Hc & E & E1 & E2 & Ha & Hd);
+  exists s'; refine (conj (eq_trans E _) (conj E1 E2)); rewrite Ha; do 2 f_equal;
+  destruct v; cbn [val_ok] in Hv; try contradiction;
+  try (cbn [heap_deref] in Hc; injection Hc as <-; reflexivity);
+  destruct c; cbn [data_cell] in Hd; try contradiction; reflexivity.
+
+Theorem pair_p_refines : forall s v, val_ok s v -> called_with s [v] ->
+  exists s', is_pair_b s = ROk (VBool (akind_pair (absv s v))) s' /\ hp s' = hp s /\ st s' = st s.
+Proof. pred_tac is_pair. Qed.
+Theorem null_p_refines : forall s v, val_ok s v -> called_with s [v] ->
+  exists s', is_null s = ROk (VBool (akind_null (absv s v))) s' /\ hp s' = hp s /\ st s' = st s.
+Proof. pred_tac is_nil. Qed.
+Theorem vector_p_refines : forall s v, val_ok s v -> called_with s [v] ->
+  exists s', is_vector s = ROk (VBool (akind_vector (absv s v))) s' /\ hp s' = hp s /\ st s' = st s.
+Proof. pred_tac (fun v => match v with VVec _ => true | _ => false end). Qed.
+Theorem string_p_refines : forall s v, val_ok s v -> called_with s [v] ->
+  exists s', is_string s = ROk (VBool (akind_string (absv s v))) s' /\ hp s' = hp s /\ st s' = st s.
+Proof. pred_tac (fun v => match v with VStr _ => true | _ => false end). Qed.
+Theorem symbol_p_refines : forall s v, val_ok s v -> called_with s [v] ->
+  exists s', is_symbol s = ROk (VBool (akind_symbol (absv s v))) s' /\ hp s' = hp s /\ st s' = st s.
+Proof. pred_tac (fun v => match v with VSym _ => true | _ => false end). Qed.
+Theorem boolean_p_refines : forall s v, val_ok s v -> called_with s [v] ->
+  exists s', is_boolean s = ROk (VBool (akind_boolean (absv s v))) s' /\ hp s' = hp s /\ st s' = st s.
+Proof. pred_tac (fun v => match v with VBool _ => true | _ => false end). Qed.
+Theorem char_p_refines : forall s v, val_ok s v -> called_with s [v] ->
+  exists s', is_char s = ROk (VBool (akind_char (absv s v))) s' /\ hp s' = hp s /\ st s' = st s.
+Proof. pred_tac (fun v => match v with VChar _ => true | _ => false end). Qed.
+Theorem number_p_refines : forall s v, val_ok s v -> called_with s [v] ->
+  exists s', is_number s = ROk (VBool (akind_number (absv s v))) s' /\ hp s' = hp s /\ st s' = st s.
+Proof. pred_tac (fun v => match v with VNum _ => true | _ => false end). Qed.
+
+(* retrieving from a vector whose contents are known *)
+Lemma vec_then_ref s' p vid xs :
+  values_are_refs s' -> absv s' (VPtr p) = ALoc (LVec vid) -> a_vec (abs s') vid = Some xs ->
+  target_ok s' p ->
+  forall t k' i x, hp t = hp s' -> st t = st s' ->
+    val_ok s' k' -> aindex (absv s' k') = Some i -> nth_error xs (N.to_nat i) = Some x ->
+    called_with t [VPtr p; k'] ->
+    exists r t', vector_ref t = ROk r t' /\ absv t' r = x.
+Proof.
+  intros W' Ep Hvv T' t k' i x E1 E2 Hk' Ek' Hn Ht.
+  assert (Wt : values_are_refs t) by (eapply wf_hp_st; eauto).
+  assert (Tv : val_ok s' (VPtr p)) by exact T'.
+  pose proof (vector_ref_refines t (VPtr p) k' Wt (val_ok_hp s' t _ E1 Tv) (val_ok_hp s' t _ E1 Hk') Ht) as C.
+  rewrite (absv_hp s' t _ E1), Ep in C.
+  destruct C as (ys & Hys & C).
+  rewrite (absv_hp s' t _ E1), Ek' in C.
+  rewrite (abs_vec_hp_st s' t vid E1 E2), Hvv in Hys. injection Hys as <-.
+  rewrite Hn in C. destruct C as (r & t' & Ec & Hr & _). exists r, t'. split; [exact Ec | exact Hr].
+Qed.
+
+Theorem make_vector_then_ref s k fill n :
+  values_are_refs s -> val_ok s k -> val_ok s fill -> called_with s [k; fill] ->
+  aindex (absv s k) = Some n -> n <= MAX_VEC ->
+  exists p s', call_builtin make_vector s = ROk (VPtr p) s' /\ values_are_refs s' /\
+    forall t k' i, hp t = hp s' -> st t = st s' ->
+      val_ok s k' -> aindex (absv s k') = Some i -> i < n ->
+      called_with t [VPtr p; k'] ->
+      exists r t', vector_ref t = ROk r t' /\ absv t' r = absv s fill.
+Proof.
+  intros W Hk Hf H En Hle.
+  pose proof (make_vector_refines s k fill W Hk Hf H) as R. rewrite En in R.
+  destruct (R Hle) as (p & vid & s' & E & Ep & Hnone & Hvv & P & W' & Hnl & T').
+  exists p, s'. refine (conj E (conj W' _)). intros t k' i E1 E2 Hk' Ek' Hlt Ht.
+  eapply (vec_then_ref s' p vid _ W' Ep Hvv T' t k' i); eauto.
+  - eapply pres_val_ok; eauto.
+  - rewrite (pres_absv s s' k' P Hk'). exact Ek'.
+  - apply nth_error_repeat. lia.
+Qed.
+
+Theorem list_to_vector_then_ref fuel s v xs :
+  values_are_refs s -> val_ok s v -> called_with s [v] ->
+  achain (abs s) (absv s v) xs (AImm VNil) -> (length xs < fuel)%nat ->
+  exists p s', call_builtin (list_to_vector fuel) s = ROk (VPtr p) s' /\ values_are_refs s' /\
+    forall t k' i x, hp t = hp s' -> st t = st s' ->
+      val_ok s k' -> aindex (absv s k') = Some i -> nth_error xs (N.to_nat i) = Some x ->
+      called_with t [VPtr p; k'] ->
+      exists r t', vector_ref t = ROk r t' /\ absv t' r = x.
+Proof.
+  intros W Hv H Hch Hfuel.
+  destruct (list_to_vector_refines fuel s v xs _ W Hv H Hch Hfuel) as (R & _).
+  destruct (R eq_refl) as (p & vid & s' & E & Ep & Hnone & Hvv & P & W' & Hnl & T').
+  exists p, s'. refine (conj E (conj W' _)). intros t k' i x E1 E2 Hk' Ek' Hn Ht.
+  eapply (vec_then_ref s' p vid xs W' Ep Hvv T' t k' i); eauto.
+  - eapply pres_val_ok; eauto.
+  - rewrite (pres_absv s s' k' P Hk'). exact Ek'.
+Qed.
